@@ -347,7 +347,10 @@ add_using(CPPUsing *using_decl, CPPScope *global_scope,
     }
   } else {
     CPPDeclaration *decl = using_decl->_ident->find_symbol(this, global_scope);
-    if (decl != nullptr) {
+    if (decl != nullptr && decl->as_type() != nullptr) {
+      // A type becomes known by its unqualified name in this scope.
+      _types[using_decl->_ident->get_simple_name()] = decl->as_type();
+    } else if (decl != nullptr) {
       handle_declaration(decl, global_scope, error_sink);
     } else {
       if (error_sink != nullptr) {
